@@ -208,8 +208,36 @@ def do_api_op(op, lists, res):
     return False
 
 
+def uuid_text(b):
+    """canonical text form xxxxxxxx-xxxx-xxxx-xxxx-xxxxxxxxxxxx of 16 wire (little-endian) bytes"""
+    h = b[::-1].hex()
+    return "-".join((h[:8], h[8:12], h[12:16], h[16:20], h[20:]))
+
+
 def mk_uuid(hx):
+    if hx.startswith("s:"):            # built from the text form, as an application would
+        return UUID(uuid_text(bytes.fromhex(hx[2:])))
     return UUID(bytes.fromhex(hx))
+
+
+def do_uuid(hexes):
+    """The UUID class on its own: UUID(bytes), and for 16 bytes UUID(text), for 2 bytes UUID(int)."""
+    out = []
+    for h in hexes:
+        b = bytes.fromhex(h)
+        r = {}
+        for form, mk in (("bytes", lambda: UUID(b)),
+                         ("text", (lambda: UUID(uuid_text(b))) if len(b) == 16 else None),
+                         ("int", (lambda: UUID(int.from_bytes(b, "little"))) if len(b) == 2 else None)):
+            if mk is None:
+                continue
+            try:
+                u = mk()
+                r[form] = [bytes(u.packed).hex(), u.type]
+            except Exception as e:  # noqa
+                r[form] = exc_name(e)
+        out.append(r)
+    return out
 
 
 U16 = {"inc": A.AdvIncServiceUuid16List, "comp": A.AdvCompServiceUuid16List, "sol": A.AdvServiceSollicitationUuid16List}
@@ -449,6 +477,8 @@ def main():
         res["build"] = [do_build(c) for c in req["build"]]
     if "scan" in req:
         res["scan"] = [do_scan(k, bytes.fromhex(h)) for k, h in req["scan"]]
+    if "uuid" in req:
+        res["uuid"] = do_uuid(req["uuid"])
     if "api" in req:
         res["api"] = [do_api(c) for c in req["api"]]
     if "seq" in req:
